@@ -72,6 +72,8 @@ struct Cfg {
     prf: bool,     // decrypt the PRF key shares (slow: discrete logs)
     extra_ar: bool, // the chain knows one more revoker than the credential uses
     holder_superset: bool, // the credential-creation context knows MORE revokers than were chosen at issuance
+    provider_superset: bool, // the identity provider supports MORE revokers than the holder chose
+    extra_ids: Vec<u32>, // supported-but-not-chosen revokers; placed so that the chosen set is NOT a prefix in id order
     nkeys: u8,
     bad_threshold: bool, // threshold = n + 1: the provider must refuse
 }
@@ -99,7 +101,18 @@ fn configs(seed: u64, thorough: bool) -> Vec<Cfg> {
     let push = |r: &mut Rng, n: u8, t: u8, v1: bool, pert: u8, prf: bool, bad: bool, v: &mut Vec<Cfg>| {
         let idx = v.len();
         let contiguous = r.below(4) == 0;
-        let ids = gen_ids(r, n, contiguous);
+        // n chosen + 2 other identities; the others are never exactly the two largest, so the chosen set is
+        // not a prefix (in id order) of the union: first omitted / gaps / only the largest ids chosen
+        let all = gen_ids(r, n + 2, contiguous);
+        let tot = all.len();
+        let ex: (usize, usize) = match idx % 3 {
+            0 => (0, 1),                                              // chosen = the largest ids
+            1 => (if tot > 2 { 1 } else { 0 }, tot - 1),               // a gap after the first id
+            _ => loop { let a = r.below(tot as u64) as usize; let b = r.below(tot as u64) as usize;
+                        if a < b && !(a == tot - 2 && b == tot - 1) { break (a, b); } },
+        };
+        let extra_ids = vec![all[ex.0], all[ex.1]];
+        let ids: Vec<u32> = all.iter().enumerate().filter(|(i, _)| *i != ex.0 && *i != ex.1).map(|(_, x)| *x).collect();
         let nattr = r.below(5) as usize;
         let mut tags = std::collections::BTreeSet::new();
         while tags.len() < nattr { tags.insert(r.below(14) as u8); }
@@ -110,7 +123,7 @@ fn configs(seed: u64, thorough: bool) -> Vec<Cfg> {
             _ => attrs.iter().filter(|_| r.chance(1, 2)).map(|x| x.0).collect(),
         };
         let max_accounts = maxes[(idx + seed as usize) % maxes.len()];
-        v.push(Cfg { idx, n, t, v1, ids, max_accounts, attrs, revealed, pert, prf, extra_ar: r.chance(1, 2), holder_superset: (idx / 2) % 2 == 0 || r.chance(1, 4),
+        v.push(Cfg { idx, n, t, v1, ids, max_accounts, attrs, revealed, pert, prf, extra_ar: r.chance(1, 2), holder_superset: (idx / 2) % 2 == 0 || r.chance(1, 4), provider_superset: (idx / 2) % 3 != 2, extra_ids,
                      nkeys: 1 + r.below(3) as u8, bad_threshold: bad });
     };
     // sampled large configurations first (so that shards get them evenly)
@@ -547,6 +560,7 @@ fn counters_for(max: u8) -> Vec<u8> {
 fn after_issue<I: HasIdentityObjectFields<IpPairing, ArCurve, AttributeKind>>(
     env: &mut Env, cfg: &Cfg, id_object: &I, forged: &I, id_use_data: &IdObjectUseData<IpPairing, ArCurve>,
     ip_info: &IpInfo<IpPairing>, ars_infos: &ArMap, ars_keys: &BTreeMap<ArIdentity, ElgSecretKey<ArCurve>>, alist: &AList,
+    extra_info: &ArMap,
 ) {
     let global = env.global.clone();
     let g = global.on_chain_commitment_key.g;
@@ -587,13 +601,10 @@ fn after_issue<I: HasIdentityObjectFields<IpPairing, ArCurve, AttributeKind>>(
     }
     // ---- credentials
     let policy = make_policy(cfg, alist);
-    // two revokers that were NOT chosen at issuance: the smallest free identity and a random free one
-    let e1 = (1u32..).find(|x| !cfg.ids.contains(x)).unwrap();
-    let e2 = loop { let x = (env.r.next() as u32).max(1); if x != e1 && !cfg.ids.contains(&x) { break x; } };
-    let (extra_info, _) = make_ars(env, &[e1, e2]);
-    let extra = extra_info[&ArIdentity::new(e1)].clone();
+    // two revokers that were NOT chosen at issuance (cfg.extra_ids: smaller than / between / above the chosen ones)
+    let extra = extra_info.values().next().unwrap().clone();
     let mut known = ars_infos.clone();
-    if cfg.extra_ar { known.insert(extra.ar_identity, extra.clone()); }
+    if cfg.extra_ar { for (k, v) in extra_info.iter() { known.insert(*k, v.clone()); } }
     // the context the account holder creates credentials in: exactly the chosen revokers, or a strict superset
     let mut holder_ars = ars_infos.clone();
     if cfg.holder_superset { for (k, v) in extra_info.iter() { holder_ars.insert(*k, v.clone()); } known.insert(extra.ar_identity, extra.clone()); }
@@ -690,8 +701,15 @@ fn run_config(env: &mut Env, cfg: &Cfg) {
     let alist = make_alist(cfg);
     let global = env.global.clone();
     let context = IpContext::new(&ip_info, &ars_infos, &global);
+    // the provider's context: the revokers it supports (the chosen ones, or a strict superset in which the
+    // chosen set is not a prefix)
+    let (extra_info, _) = make_ars(env, &cfg.extra_ids);
+    let mut provider_ars = ars_infos.clone();
+    if cfg.provider_superset { for (k, v) in extra_info.iter() { provider_ars.insert(*k, v.clone()); } }
+    let pcontext = IpContext::new(&ip_info, &provider_ars, &global);
     let threshold = Threshold::try_new(cfg.t).unwrap();
     let mut rec = json!({"k":"issue","cfg":cfg.idx,"n":cfg.n,"t":cfg.t,"v1":cfg.v1,"ids":cfg.ids,"bad_threshold":cfg.bad_threshold,
+                         "provider_superset":cfg.provider_superset,"supported":provider_ars.keys().map(|x| u32::from(*x)).collect::<Vec<_>>(),
                          "max":cfg.max_accounts,"attrs":cfg.attrs.len(),"revealed":cfg.revealed.len()});
     if !cfg.v1 {
         let acc = InitialAccountData { keys: make_keys(env, cfg.nkeys), threshold: SignatureThreshold::ONE };
@@ -701,9 +719,9 @@ fn run_config(env: &mut Env, cfg: &Cfg) {
             Err(_) => { rec["pio"] = json!("PANIC"); out(rec); return; }
         };
         rec["pio"] = json!("Ok");
-        let val = guarded(|| validate_request(&pio, context));
+        let val = guarded(|| validate_request(&pio, pcontext));
         rec["validate"] = json!(match &val { Ok(Ok(())) => "OK".to_string(), Ok(Err(e)) => format!("{:?}", e), Err(_) => "PANIC".into() });
-        let vc = guarded(|| verify_credentials(&pio, context, &alist, EXPIRY, &ipd.ip_secret_key, &ipd.ip_cdi_secret_key));
+        let vc = guarded(|| verify_credentials(&pio, pcontext, &alist, EXPIRY, &ipd.ip_secret_key, &ipd.ip_cdi_secret_key));
         let (sig, icdi) = match vc {
             Ok(Ok(x)) => x,
             Ok(Err(e)) => { rec["issue"] = json!(format!("{:?}", e)); out(rec); return; }
@@ -717,7 +735,7 @@ fn run_config(env: &mut Env, cfg: &Cfg) {
         let mut al2 = alist.clone(); al2.max_accounts = 255;
         let forged = IdentityObject { pre_identity_object: de(&to_bytes(&pio)).unwrap(), alist: al2, signature: sig.clone() };
         let ido = IdentityObject { pre_identity_object: pio, alist: alist.clone(), signature: sig };
-        after_issue(env, cfg, &ido, &forged, &id_use_data, &ip_info, &ars_infos, &ars_keys, &alist);
+        after_issue(env, cfg, &ido, &forged, &id_use_data, &ip_info, &ars_infos, &ars_keys, &alist, &extra_info);
     } else {
         let pio = match guarded(|| generate_pio_v1_with_rng(&context, threshold, &id_use_data, &mut env.csprng)) {
             Ok(Some((pio, _))) => pio,
@@ -725,9 +743,9 @@ fn run_config(env: &mut Env, cfg: &Cfg) {
             Err(_) => { rec["pio"] = json!("PANIC"); out(rec); return; }
         };
         rec["pio"] = json!("Ok");
-        let val = guarded(|| validate_request_v1(&pio, context));
+        let val = guarded(|| validate_request_v1(&pio, pcontext));
         rec["validate"] = json!(match &val { Ok(Ok(())) => "OK".to_string(), Ok(Err(e)) => format!("{:?}", e), Err(_) => "PANIC".into() });
-        let vc = guarded(|| verify_credentials_v1(&pio, context, &alist, &ipd.ip_secret_key));
+        let vc = guarded(|| verify_credentials_v1(&pio, pcontext, &alist, &ipd.ip_secret_key));
         let sig = match vc {
             Ok(Ok(x)) => x,
             Ok(Err(e)) => { rec["issue"] = json!(format!("{:?}", e)); out(rec); return; }
@@ -740,7 +758,7 @@ fn run_config(env: &mut Env, cfg: &Cfg) {
         let mut al2 = alist.clone(); al2.max_accounts = 255;
         let forged = IdentityObjectV1 { pre_identity_object: de(&to_bytes(&pio)).unwrap(), alist: al2, signature: sig.clone() };
         let ido = IdentityObjectV1 { pre_identity_object: pio, alist: alist.clone(), signature: sig };
-        after_issue(env, cfg, &ido, &forged, &id_use_data, &ip_info, &ars_infos, &ars_keys, &alist);
+        after_issue(env, cfg, &ido, &forged, &id_use_data, &ip_info, &ars_infos, &ars_keys, &alist, &extra_info);
     }
     out(json!({"k":"cfgdone","cfg":cfg.idx,"ms":t0.elapsed().as_millis() as u64}));
 }
@@ -834,6 +852,50 @@ fn leq(seed: u64, n: u64) {
 }
 
 // ---------------------------------------------------------------------------------------------
+// length of the provider's PS key at its boundary: n attributes + m revoker scalars + 5 fixed slots
+
+fn keylen(seed: u64) {
+    let mut env = new_env(seed, 0x4b1, false);
+    let global = env.global.clone();
+    for (nars, nattr) in [(1u8, 0usize), (1, 2), (3, 4), (7, 1), (8, 2)] {
+        let m = (nars as usize + 6) / 7; // encode_ars: 7 identities per scalar
+        for delta in [-1i64, 0, 1, 2] {
+            let len = (nattr + m + 5) as i64 + delta;
+            let mut ipd = test_create_ip_info(&mut env.csprng, nars, 10);
+            let sk = concordium_base::ps_sig::SecretKey::<IpPairing>::generate(len as usize, &mut env.csprng);
+            ipd.public_ip_info.ip_verify_key = concordium_base::ps_sig::PublicKey::from(&sk);
+            ipd.ip_secret_key = sk;
+            let ip_info = ipd.public_ip_info.clone();
+            let ids: Vec<u32> = (1..=nars as u32).collect();
+            let (ars_infos, _) = make_ars(&mut env, &ids);
+            let id_use_data = test_create_id_use_data(&mut env.csprng);
+            let mut al = BTreeMap::new();
+            for t in 0..nattr { al.insert(AttributeTag(t as u8), AttributeKind::from(t as u64 + 5)); }
+            let alist = AList { valid_to: YearMonth::new(2032, 5).unwrap(), created_at: YearMonth::new(2020, 5).unwrap(), max_accounts: 10, alist: al, _phantom: Default::default() };
+            let context = IpContext::new(&ip_info, &ars_infos, &global);
+            let mut rec = json!({"k":"keylen","n":nars,"m":m,"attrs":nattr,"len":len,"delta":delta});
+            let pio = match guarded(|| generate_pio_v1_with_rng(&context, Threshold::try_new(1).unwrap(), &id_use_data, &mut env.csprng)) {
+                Ok(Some((p, _))) => p, _ => { rec["issue"] = json!("no-pio"); out(rec); continue; } };
+            let sig = match guarded(|| verify_credentials_v1(&pio, context, &alist, &ipd.ip_secret_key)) {
+                Ok(Ok(s)) => s,
+                Ok(Err(e)) => { rec["issue"] = json!(format!("{:?}", e)); out(rec); continue; }
+                Err(_) => { rec["issue"] = json!("PANIC"); out(rec); continue; } };
+            rec["issue"] = json!("OK");
+            let ido = IdentityObjectV1 { pre_identity_object: pio, alist: alist.clone(), signature: sig };
+            let policy = Policy { valid_to: alist.valid_to, created_at: alist.created_at, policy_vec: BTreeMap::new(), _phantom: Default::default() };
+            let cred_data = CredentialData { keys: make_keys(&mut env, 1), threshold: SignatureThreshold::ONE };
+            let noe: NoE = Left(EXPIRY);
+            match guarded(|| create_credential(context, &ido, &id_use_data, 0, policy, &cred_data, &SystemAttributeRandomness {}, &noe)) {
+                Ok(Ok((cdi, _))) => { rec["created"] = json!("Ok"); rec["verified"] = json!(verr(&guarded(|| verify_cdi(&global, &ip_info, &ars_infos, &cdi, &noe)))); }
+                Ok(Err(e)) => { rec["created"] = json!("Err"); rec["why"] = json!(format!("{}", e).chars().take(160).collect::<String>()); }
+                Err(e) => { rec["created"] = json!("PANIC"); rec["why"] = json!(e.chars().take(160).collect::<String>()); }
+            }
+            out(rec);
+        }
+    }
+}
+
+// ---------------------------------------------------------------------------------------------
 // lincheck: sum coef_i * pts_i == want, with the real curve arithmetic
 
 fn lincheck() {
@@ -885,6 +947,7 @@ fn main() {
         "configs" => { let seed: u64 = a[2].parse().unwrap(); for c in configs(seed, a[3] == "thorough") { println!("{:?}", c); } }
         "sharegen" => sharegen(a[2].parse().unwrap(), a[3].parse().unwrap()),
         "leq" => leq(a[2].parse().unwrap(), a[3].parse().unwrap()),
+        "keylen" => keylen(a[2].parse().unwrap()),
         _ => panic!("mode"),
     }
     // abandoned helper threads (a hanging discrete log) must not keep the process alive
